@@ -184,9 +184,15 @@ def emit_kind(kind, ir, opts):
         return to_src(node)
     if kind in ("function", "method"):
         ftype = opts.get("function_type") or ("static" if kind == "function" else "self")
+        fname = opts.get("name", "f_target")
+        if opts.get("kind_from_description"):
+            # name and kind are taken from the description itself (as when a parsed method is re-emitted,
+            # or when sync creates a missing function): nothing is passed explicitly
+            ir = dict(ir, name=fname, type=ftype)
+            fname = ftype = None
         node = emit.function(
             ir,
-            function_name=opts.get("name", "f_target"),
+            function_name=fname,
             function_type=ftype,
             word_wrap=ww,
             emit_default_doc=edd,
@@ -254,7 +260,7 @@ def option_space(kind):
                                 for ww in (False, True):
                                     out.append(dict(function_type=ft, inline_types=inline, emit_as_kwonlyargs=kwonly,
                                                     indent_level=il, emit_separating_tab=tab, emit_default_doc=edd,
-                                                    word_wrap=ww))
+                                                    word_wrap=ww, kind_from_description=(len(out) % 3 == 1)))
     else:
         for edd in (False, True):
             for ww in (False, True):
